@@ -111,6 +111,26 @@ def main():
         elif k == "restore":
             s.lookup(op["o"]).set_randstate(snaps[op["name"]])
             events.append({"op": "restore", "o": op["o"], "name": op["name"]})
+        # --- states held by the user under a name (a stream of their own, "u:<name>"): created from a seed, copied into and out
+        #     of objects, advanced by free-standing calls that are given the state itself (replay of B_RandState behaviours)
+        elif k == "gdraw":
+            random.randint(0, 0xFFFFFFFF)               # the same draw RandState.mk() takes from the global generator
+            events.append({"op": "gdraw"})
+        elif k == "mk":
+            snaps["u:" + op["name"]] = vsc.RandState.mkFromSeed(op["s"])
+            events.append({"op": "seed", "o": "u:" + op["name"], "s": op["s"] * 1000})
+        elif k == "restore_u":
+            s.lookup(op["o"]).set_randstate(snaps["u:" + op["name"]])
+            stated.add(op["o"])
+            events.append({"op": "snap", "o": "u:" + op["name"], "name": "tmp"})
+            events.append({"op": "restore", "o": op["o"], "name": "tmp"})
+        elif k == "snap_u":
+            if op["o"] not in stated:
+                events.append({"op": "default", "o": op["o"]})
+                stated.add(op["o"])
+            snaps["u:" + op["name"]] = s.lookup(op["o"]).get_randstate()
+            events.append({"op": "snap", "o": op["o"], "name": "tmp"})
+            events.append({"op": "restore", "o": "u:" + op["name"], "name": "tmp"})
         elif k == "call":
             call = dict(op["call"])
             flags = {}
@@ -121,6 +141,17 @@ def main():
             call["flags"] = flags
             o = call["roots"][0]
             stream = o
+            if call.get("rs_name") is not None:
+                # a module-level call that is handed a state the user holds: that state itself advances
+                flags["randstate"] = snaps["u:" + call["rs_name"]]
+                stream = "u:" + call["rs_name"]
+            elif call["kind"] in ("method", "with") and o not in stated:
+                # the first use of an object without a state derives one from the next draw of the global generator
+                # (derived here, through get_randstate(), so that the call itself can be required to draw nothing from the global
+                #  generator)
+                s.lookup(o).get_randstate()
+                events.append({"op": "default", "o": o})
+                stated.add(o)
             if call.get("rs_seed") is not None:
                 # a module-level vsc.randomize(obj, randstate=RandState(seed)): the stream of this call originates at that seed
                 flags["randstate"] = vsc.RandState.mkFromSeed(call["rs_seed"])
@@ -137,8 +168,14 @@ def main():
             finally:
                 for n_ in orig:
                     setattr(random, n_, orig[n_])
-            events.append({"op": "call", "o": stream, "desc": json.dumps({k_: v_ for k_, v_ in op["call"].items() if k_ != "stream"}, sort_keys=True),
-                           "pre": pre, "post": proj(o),
+            # the call is described relative to its root object: instances of one class seeded alike replay one another
+            rel = lambda d_: {"$" + k_[len(o):]: v_ for k_, v_ in d_.items()}
+            cd = {k_: v_ for k_, v_ in op["call"].items() if k_ not in ("stream", "rs_name", "rs_seed")}
+            cd["roots"] = ["$" if r_ == o else r_ for r_ in cd["roots"]]
+            cd["owner"] = "$" if cd.get("owner") == o else cd.get("owner")
+            pre, post_ = rel(pre), rel(proj(o))
+            events.append({"op": "call", "o": stream, "desc": json.dumps(cd, sort_keys=True),
+                           "pre": pre, "post": post_,
                            "exc": e, "glob": glob[0], "explicit": True})
         else:
             raise ValueError(k)
